@@ -131,7 +131,11 @@ func (y *c01Sys) Root() *c01State {
 	return s
 }
 
-func (y *c01Sys) Digest(s *c01State) [32]byte { return s.w.Digest(s.ctx) }
+// the model is part of the state key: a change that turns an operation into a no-op on the stores must
+// not make the successor look like an already visited state (its model differs, and Check has to see it)
+func (y *c01Sys) Digest(s *c01State) [32]byte {
+	return s.w.Digest(s.ctx, []byte(fmt.Sprint(s.bal, s.outs, s.b2, s.b3)))
+}
 
 func (y *c01Sys) Letters(s *c01State) []engine.Letter {
 	var ls []engine.Letter
